@@ -793,6 +793,27 @@ func directedAssignPkgs() []*apkg {
 		a.buildFiles()
 		out = append(out, a)
 	}
+	// rule types from THREE imported packages, first mentioned in the generated code in an order that is not the
+	// sorted order of their import paths (strings < time < verifgen/helper), and in the sorted order
+	for k, ord := range [][]int{{3, 2, 1}, {1, 2, 3}, {2, 3, 1}} {
+		tys := []string{"int", "*strings.Builder", "time.Duration", "helper.Item"}
+		mks := []string{"id", "mkBuilder(id)", "time.Duration(id)", "helper.Item{ID: id}"}
+		names := []string{"s", "a", "b", "c"}
+		ruleTy := []string{"int", tys[ord[0]], tys[ord[1]], tys[ord[2]]}
+		out = append(out, mk(fmt.Sprintf("d009%d", 3+k), "three-imported-packages-order", 0,
+			&GSpec{Tokens: []string{"TA", "TB"}, Rules: []*GRule{
+				{Name: "s", Prods: []*GProd{{Terms: []*GTerm{rule(1), rule(2), rule(3)}}}},
+				{Name: "a", Prods: []*GProd{{Terms: []*GTerm{tok(0)}}}},
+				{Name: "b", Prods: []*GProd{{Terms: []*GTerm{tok(0)}}}},
+				{Name: "c", Prods: []*GProd{{Terms: []*GTerm{tok(1)}}}}}},
+			ruleTy,
+			[]*amethod{
+				{Name: "on_s", Params: []string{ruleTy[1], ruleTy[2], ruleTy[3]}, Results: []string{"int"}, MkExpr: "id"},
+				{Name: "on_" + names[1], Params: []string{"Token"}, Results: []string{ruleTy[1]}, MkExpr: mks[ord[0]]},
+				{Name: "on_" + names[2], Params: []string{"Token"}, Results: []string{ruleTy[2]}, MkExpr: mks[ord[1]]},
+				{Name: "on_" + names[3], Params: []string{"Token"}, Results: []string{ruleTy[3]}, MkExpr: mks[ord[2]]}},
+			[][]int{{0, 0, 1}}))
+	}
 	// D16: variadic action method: s = A* n ; on_s(a []Token, n ...int32) must be refused
 	out = append(out, mk("d0002", "D16-variadic", 0,
 		&GSpec{Tokens: []string{"TA", "TB"}, Rules: []*GRule{
